@@ -238,6 +238,61 @@ def hom(M, p):
     return matvec(M, [p[0], p[1], p[2], 1])
 
 
+# ---- C09: elementary affine matrices (homogeneous coordinates, column vectors, lists of columns)
+def vdiv(a, s): return [x / s for x in a]
+
+
+def translation(v):
+    """(n+1)x(n+1) identity whose last column is (v, 1): p -> p + v"""
+    n = len(v)
+    out = ident(n + 1)
+    for r in range(n):
+        out[n][r] = v[r]
+    return out
+
+
+def diag(d):
+    """diagonal matrix diag(d0, d1, ...)"""
+    return [[d[c] if c == r else 0 for r in range(len(d))] for c in range(len(d))]
+
+
+def shear_elem(n, row, col, k):
+    """elementary shear I + k * e_row e_col^T (n x n): coordinate `row` becomes x_row + k * x_col, all others unchanged"""
+    out = ident(n)
+    out[col][row] = k
+    return out
+
+
+def shear4_doc(p, lx, ly, lz):
+    """the 4x4 matrix printed in the documentation of glm::shear (ext/matrix_transform.hpp), row by row:
+       [1    l_xy l_xz -(l_xy+l_xz)*p_x]
+       [l_yx 1    l_yz -(l_yx+l_yz)*p_y]
+       [l_zx l_zy 1    -(l_zx+l_zy)*p_z]
+       [0    0    0    1               ]   with l_x = (l_xy, l_xz), l_y = (l_yx, l_yz), l_z = (l_zx, l_zy)"""
+    rows = [[1, lx[0], lx[1], -(lx[0] + lx[1]) * p[0]],
+            [ly[0], 1, ly[1], -(ly[0] + ly[1]) * p[1]],
+            [lz[0], lz[1], 1, -(lz[0] + lz[1]) * p[2]],
+            [0, 0, 0, 1]]
+    return transpose(rows)
+
+
+def block(M, n):
+    """upper-left n x n block"""
+    return [[M[c][r] for r in range(n)] for c in range(n)]
+
+
+def ndc_is(c, nx, ny, nz):
+    """clip-space point c=(x,y,z,w) is in front of the eye (w > 0) and its perspective divide c.xyz/c.w is the
+    normalised device coordinate (nx,ny,nz); stated without division"""
+    return [c[3] > 0, c[0] == nx * c[3], c[1] == ny * c[3], c[2] == nz * c[3]]
+
+
+def proportional(a, b):
+    """vectors a and b are linearly dependent: every 2x2 minor a[i]*b[j] - a[j]*b[i] vanishes"""
+    return [a[i] * b[j] == a[j] * b[i] for i in range(len(a)) for j in range(i + 1, len(a))]
+
+
 EXPORT = ['mat', 'vec', 'ident', 'matmul', 'matvec', 'vecmat', 'transpose', 'madd', 'msub', 'mscale', 'det', 'eqm', 'eqv',
           'dot', 'cross', 'norm2', 'vadd', 'vsub', 'vscale', 'vneg', 'qmul', 'qconj', 'qrot_matrix', 'rodrigues', 'embed4',
-          'rotX', 'rotY', 'rotZ', 'hom', 'ncols', 'nrows']
+          'rotX', 'rotY', 'rotZ', 'hom', 'ndc_is', 'proportional', 'ncols', 'nrows',
+          'vdiv', 'translation', 'diag', 'shear_elem', 'shear4_doc', 'block']
